@@ -218,7 +218,7 @@ fn c16_ws_offreader(case: &Case) {
             case.check(gate.max_running() as usize <= effective, "cap-exceeded", || format!("{} handlers ran simultaneously, cap {cap}", gate.max_running()));
             for t in &rejected {
                 let rs = inbox.responses_for(id_of[t]);
-                if !case.check(rs.len() == 1 && rs[0].ec == ErrorCode::ResourceExhausted as u32, "saturation-reply", || {
+                if !case.check(rs.len() == 1 && rs[0].ec == ErrorCode::ResourceExhausted as u32 && rs[0].query.starts_with(b"/gate"), "saturation-reply", || {
                     format!("request #{t} arrived at the cap ({cap}) and got {:?} before any handler was released", rs.iter().map(|f| (f.ec, String::from_utf8_lossy(&f.body).to_string())).collect::<Vec<_>>())
                 }) {
                     gate.open_all();
@@ -239,6 +239,32 @@ fn c16_ws_offreader(case: &Case) {
             }
             if !rejected.is_empty() || !dropped_notifies.is_empty() {
                 case.probe("saturation_reached");
+            }
+        }
+
+        // ---- the cap is per connection: a second connection gets its own slots while the
+        // first one is saturated
+        let mut second: Option<(crate::families::ws_common::RawSink, Arc<Inbox>, tokio::task::JoinHandle<()>, Vec<u64>)> = None;
+        if cap != 0 && admitted.len() >= cap && simkernel::choose(3) == 0 {
+            if let Ok(ws2) = raw_connect(addr, "/repe").await {
+                let (mut sink2, stream2) = ws2.split();
+                let inbox2 = Arc::new(Inbox::default());
+                let coll2 = spawn_collector(stream2, inbox2.clone());
+                let n2 = cap.min(2) as u64;
+                let mut tags2 = Vec::new();
+                for k in 0..n2 {
+                    tag += 1;
+                    tags2.push(tag);
+                    let _ = send_frame(&mut sink2, &gate_frame(500 + k, tag, false, "/gate")).await;
+                }
+                let (g2, t2) = (gate.clone(), tags2.clone());
+                if !wait_until(200, || t2.iter().all(|t| g2.has_arrived(*t))).await {
+                    case.fail("cap-shared-across-connections", format!("cap {cap}: connection 1 holds {} handlers; connection 2 sent {n2} off-reader requests and only {:?} of {tags2:?} were admitted (replies: {:?})", admitted.len(), gate.arrived(), inbox2.frames().iter().map(|f| (f.id, f.ec)).collect::<Vec<_>>()));
+                    gate.open_all();
+                    return;
+                }
+                case.probe("second_connection_has_its_own_cap");
+                second = Some((sink2, inbox2, coll2, tags2));
             }
         }
 
@@ -313,9 +339,23 @@ fn c16_ws_offreader(case: &Case) {
                     }
                 }
             }
-            case.check(gate.max_running() as usize <= effective, "cap-exceeded", || format!("{} handlers ran simultaneously, cap {cap}", gate.max_running()));
+            // (the gauge spans both connections once the second one holds handlers too)
+            let conns = if second.is_some() { 2 } else { 1 };
+            case.check(gate.max_running() as usize <= effective.saturating_mul(conns), "cap-exceeded", || format!("{} handlers ran simultaneously on {conns} connection(s), cap {cap} per connection", gate.max_running()));
         }
 
+        if let Some((mut sink2, inbox2, coll2, tags2)) = second.take() {
+            for (k, t) in tags2.iter().enumerate() {
+                gate.release(*t, Exit::Return);
+                let id2 = 500 + k as u64;
+                let ib = inbox2.clone();
+                if !wait_until(200, || !ib.responses_for(id2).is_empty()).await {
+                    case.fail("no-response-after-release", format!("second connection: handler #{t} released but no response arrived"));
+                }
+            }
+            let _ = tokio::time::timeout(std::time::Duration::from_secs(2), futures_util::SinkExt::close(&mut sink2)).await;
+            let _ = tokio::time::timeout(std::time::Duration::from_secs(2), coll2).await;
+        }
         // ---- phase 3: the connection is still fine
         sleep_ms(3).await;
         next_id += 1;
